@@ -156,7 +156,7 @@ theorem doMove_castle_fields (T : ZTable) (p : Position) (m : Nat) (hc : moveCas
     let q := (doMove T p m).1
     let r := if p.side = 0 then 0 else 7
     q.side = 1 - p.side ∧ q.ply = p.ply + 1 ∧ q.castling = clearBits p.castling (castlingRightsOf p.side) ∧ q.ep = 64 ∧
-    q.halfmove = (p.halfmove + 1) % 256 ∧
+    q.halfmove = (p.halfmove + 1) % 65536 ∧
     q.board = (if moveCastling m = KING_CASTLING then
         (((p.board.set (mkSquare r 4) 0).set (mkSquare r 6) (gd p.board (mkSquare r 4))).set (mkSquare r 7) 0).set (mkSquare r 5) (gd p.board (mkSquare r 7))
       else
@@ -166,11 +166,11 @@ theorem doMove_castle_fields (T : ZTable) (p : Position) (m : Nat) (hc : moveCas
     show (doMove T p m).1 = _
     unfold doMove; simp only []; rw [if_pos hc]
   have key : ∀ a b c d, c ≠ a → c ≠ b →
-      let x : Position := { (preMove T p) with halfmove := ((preMove T p).halfmove + 1) % 256 }
+      let x : Position := { (preMove T p) with halfmove := ((preMove T p).halfmove + 1) % 65536 }
       let y := movePiece T (movePiece T x a b) c d
       let z : Position := withHistory { (setCastlingKey T { y with castling := clearBits y.castling (castlingRightsOf p.side) }) with ep := 64 }
       z.side = 1 - p.side ∧ z.ply = p.ply + 1 ∧ z.castling = clearBits p.castling (castlingRightsOf p.side) ∧ z.ep = 64 ∧
-      z.halfmove = (p.halfmove + 1) % 256 ∧
+      z.halfmove = (p.halfmove + 1) % 65536 ∧
       z.board = (((p.board.set a 0).set b (gd p.board a)).set c 0).set d (gd p.board c) := by
     intro a b c d h1 h2 x y z
     have sr : SameRest x y := two_moves_rest T x a b c d
@@ -213,7 +213,7 @@ theorem setEpAfter_more (T : ZTable) (p : Position) (side moved f t : Nat) :
   · rw [if_neg h, if_neg h]; exact ⟨rfl, rfl, rfl⟩
 
 theorem clockStep_halfmove (q : Position) (m : Nat) :
-    (clockStep q m).halfmove = (if kindOf (q.at (moveFrom m)) ≠ PAWN ∧ kindOf (q.at (moveTo m)) = 0 then (q.halfmove + 1) % 256 else 0) := by
+    (clockStep q m).halfmove = (if kindOf (q.at (moveFrom m)) ≠ PAWN ∧ kindOf (q.at (moveTo m)) = 0 then (q.halfmove + 1) % 65536 else 0) := by
   unfold clockStep
   by_cases h : kindOf (q.at (moveFrom m)) ≠ PAWN ∧ kindOf (q.at (moveTo m)) = 0
   · rw [if_pos h, if_pos h]
@@ -224,7 +224,7 @@ theorem doMove_normal_fields (T : ZTable) (p : Position) (m : Nat) (hc0 : moveCa
     let f := moveFrom m
     let t := moveTo m
     q.side = 1 - p.side ∧ q.ply = p.ply + 1 ∧
-    q.halfmove = (if kindOf (p.at f) ≠ PAWN ∧ kindOf (p.at t) = 0 then (p.halfmove + 1) % 256 else 0) ∧
+    q.halfmove = (if kindOf (p.at f) ≠ PAWN ∧ kindOf (p.at t) = 0 then (p.halfmove + 1) % 65536 else 0) ∧
     q.ep = (if kindOf (p.at f) = PAWN ∧ rankOf f = (if p.side = 0 then 1 else 6) ∧ rankOf t = (if p.side = 0 then 3 else 4)
             then (if p.side = 0 then t - 8 else t + 8) else 64) ∧
     ((kindOf (p.at f) = PAWN ∧ t = p.ep) →
@@ -242,7 +242,7 @@ theorem doMove_normal_fields (T : ZTable) (p : Position) (m : Nat) (hc0 : moveCa
   have he1 : (clockStep (preMove T p) m).ep = p.ep := by unfold clockStep; split <;> rfl
   have hc1 : (clockStep (preMove T p) m).castling = p.castling := by unfold clockStep; split <;> rfl
   have hh1 : (clockStep (preMove T p) m).halfmove =
-      (if kindOf (p.at f) ≠ PAWN ∧ kindOf (p.at t) = 0 then (p.halfmove + 1) % 256 else 0) := by
+      (if kindOf (p.at f) ≠ PAWN ∧ kindOf (p.at t) = 0 then (p.halfmove + 1) % 65536 else 0) := by
     exact clockStep_halfmove (preMove T p) m
   have hat : ∀ s, (clockStep (preMove T p) m).at s = p.at s := by
     intro s; unfold Position.at; rw [hb1]
@@ -409,7 +409,7 @@ theorem plyOK_succ (p q : Position) (hp : PlyOK p) (hs : p.side ≤ 1) (h1 : q.s
   have : p.side = 0 ∨ p.side = 1 := by omega
   rcases this with h | h <;> simp [h] at b ⊢ <;> omega
 
-theorem refine_castle (T : ZTable) (p : Position) (sm : Spec.SMove) (ok : StepOK (absPos p) sm) (hp : PlyOK p) (hh : p.halfmove < 255)
+theorem refine_castle (T : ZTable) (p : Position) (sm : Spec.SMove) (ok : StepOK (absPos p) sm) (hp : PlyOK p) (hh : p.halfmove < 65535)
     (hcs : kindOf (gd p.board sm.src) = KING ∧ (sm.dst = sm.src + 2 ∨ sm.dst + 2 = sm.src)) :
     absPos (doMove T p (codeOf (absPos p) sm)).1 = Spec.apply (absPos p) sm ∧ PlyOK (doMove T p (codeOf (absPos p) sm)).1 := by
   have hside : p.side ≤ 1 := ok.side
@@ -612,7 +612,7 @@ end Chess
 
 namespace Chess
 
-theorem refine_normal (T : ZTable) (p : Position) (sm : Spec.SMove) (ok : StepOK (absPos p) sm) (hp : PlyOK p) (hh : p.halfmove < 255)
+theorem refine_normal (T : ZTable) (p : Position) (sm : Spec.SMove) (ok : StepOK (absPos p) sm) (hp : PlyOK p) (hh : p.halfmove < 65535)
     (hcs : ¬ (kindOf (gd p.board sm.src) = KING ∧ (sm.dst = sm.src + 2 ∨ sm.dst + 2 = sm.src))) :
     absPos (doMove T p (codeOf (absPos p) sm)).1 = Spec.apply (absPos p) sm ∧ PlyOK (doMove T p (codeOf (absPos p) sm)).1 := by
   have hside : p.side ≤ 1 := ok.side
@@ -722,7 +722,7 @@ theorem refine_normal (T : ZTable) (p : Position) (sm : Spec.SMove) (ok : StepOK
   · -- half-move clock
     show (doMove T p _).1.halfmove = _
     rw [f3, apply_half, isCapture_eq]
-    show (if kindOf (gd p.board sm.src) ≠ PAWN ∧ kindOf (gd p.board sm.dst) = 0 then (p.halfmove + 1) % 256 else 0) =
+    show (if kindOf (gd p.board sm.src) ≠ PAWN ∧ kindOf (gd p.board sm.dst) = 0 then (p.halfmove + 1) % 65536 else 0) =
       if (decide (kindOf (gd p.board sm.src) = 1) || (decide (gd p.board sm.dst ≠ 0) || Spec.isEpCapture (absPos p) sm)) = true then 0 else p.halfmove + 1
     by_cases hk : kindOf (gd p.board sm.src) = PAWN
     · have hk1 : kindOf (gd p.board sm.src) = 1 := hk
@@ -743,7 +743,7 @@ theorem refine_normal (T : ZTable) (p : Position) (sm : Spec.SMove) (ok : StepOK
     exact plyFull_succ p.ply p.side hp.1 hp.2 hside
 
 /-- C02 core: one move of the model is one move of the rules -/
-theorem refine_step (T : ZTable) (p : Position) (sm : Spec.SMove) (ok : StepOK (absPos p) sm) (hp : PlyOK p) (hh : p.halfmove < 255) :
+theorem refine_step (T : ZTable) (p : Position) (sm : Spec.SMove) (ok : StepOK (absPos p) sm) (hp : PlyOK p) (hh : p.halfmove < 65535) :
     absPos (doMove T p (codeOf (absPos p) sm)).1 = Spec.apply (absPos p) sm ∧ PlyOK (doMove T p (codeOf (absPos p) sm)).1 := by
   by_cases hcs : kindOf (gd p.board sm.src) = KING ∧ (sm.dst = sm.src + 2 ∨ sm.dst + 2 = sm.src)
   · exact refine_castle T p sm ok hp hh hcs
